@@ -294,6 +294,13 @@ class Body:
                         f2 = f2 | {(dl, 'Continue')}
                     elif v in ('Err', 'None'):
                         f2 = f2 | {(dl, 'Break')}
+                elif fn.endswith('FromResidual::from_residual') and not t['dst']['p']:
+                    # `?` on None / Err(e): the value built from the residual is None / Err(..)
+                    ty = re.sub(r'^(std|core)::(option|result)::', '', self.local_ty(dl) or '')
+                    if ty.startswith('Option<'):
+                        f2 = f2 | {(dl, 'None')}
+                    elif ty.startswith('Result<'):
+                        f2 = f2 | {(dl, 'Err')}
                 # arguments passed by mutable reference may change: handled through the `ref mut` rule above
             for x in succs:
                 push((x, 0), f2)
